@@ -35,7 +35,7 @@ def _ptype(n) -> tuple:
         head = n.value.id
         sl = n.slice
         args = list(sl.elts) if isinstance(sl, ast.Tuple) else [sl]
-        targs = [_ptype(a) for a in args]
+        targs = [_ptype(a) for a in args if not (isinstance(a, ast.Constant) and isinstance(a.value, int))]
         if head == "Set":
             return ("set", targs[0])
         if head == "List":
@@ -57,6 +57,8 @@ def _ptype(n) -> tuple:
             return ("ctxvar", targs[0])
         if head == "Seq":
             return ("list", targs[0])
+        if head == "CArray":
+            return ("carray", _ptype(args[0]), args[1].value)
     raise ValueError(f"bad type {ast.dump(n)}")
 
 
